@@ -137,7 +137,18 @@ fn model(log: &[Rec], setups: &[Setup], exact_first_seen: bool, m: &mut Mon) {
                 }
             }
             Ev::Taken(EvSnap::State(StateSnap::WaitingForReboot)) => in_reboot_wait = true,
-            Ev::Taken(EvSnap::State(StateSnap::Idle)) => in_reboot_wait = false,
+            Ev::Taken(EvSnap::State(StateSnap::Idle)) => {
+                in_reboot_wait = false;
+                // an install with no failed app after which the machine never attempted a reboot (none needed, or
+                // none allowed yet): the record must be durable by the time the check is over — the device may go
+                // down by other means at any moment
+                if await_commit {
+                    m.judge("c18-finish-and-target-committed-before-reboot", finish_committed, "idle-without-reboot", || {
+                        format!("at seq {} the check is over (Idle) and the finish time {:?} / target version {:?} of the install with no failed app had not been committed", r.seq, finish.map(|f| f / 1000), expect_target)
+                    });
+                    await_commit = false;
+                }
+            }
             Ev::PolicyNext { .. } => {
                 passed_first_next = true;
                 if reported > 0 {
